@@ -199,6 +199,8 @@ BODY_KINDS = {
     "call-1.0": lambda: _r("ok", [1, "x"], 12, False),
     "failing-2.0": lambda: _r("fail", [], 13, True),
     "failing-1.0": lambda: _r("fail", [], "s14", False),
+    "fault-2.0": lambda: _r("flt", [], 31, True),
+    "fault-1.0": lambda: _r("flt", [], 32, False),
     "unknown-2.0": lambda: _r("nope", A, 15, True),
     "unknown-1.0": lambda: _r("nope", A, 16, False),
     "notification-2.0": lambda: _r("ok", [], A, True),
@@ -212,7 +214,7 @@ BODY_KINDS = {
     "bad-arity-1.0": lambda: _r("two", [1], 20, False),
     "batch-mixed": lambda: [_r("ok", [1], 21, False), _r("ok", [2], 22, True), _r(A, A, 23, True), _r("ok", [], A, True),
                             _r("fail", [], 24, False), 7, _r("nope", A, 25, False)],
-    "batch-1.0": lambda: [_r("ok", [1], 26, False), _r("nope", A, 27, False), _r("ok", [], None, False)],
+    "batch-1.0": lambda: [_r("ok", [1], 26, False), _r("nope", A, 27, False), _r("ok", [], None, False), _r("flt", [], 28, False)],
     "batch-notifications": lambda: [_r("ok", [], A, True), _r("ok", [], None, False)],
 }
 TEXT_KINDS = {"unparsable": "{\"jsonrpc\": \"2.0\", \"method\": ", "empty-body": ""}
